@@ -38,7 +38,8 @@ Record authz := {
   az_gaud : list aurl;          (* audience granted by the integrator *)
   az_subject : string;
   az_challenge : string;
-  az_method : string
+  az_method : string;
+  az_mode : string        (* response_mode parameter ("" = none); only pushed requests and their follow-up carry one in this model *)
 }.
 
 (* who calls the introspection endpoint: client credentials (Basic) or a bearer token *)
@@ -181,7 +182,7 @@ Definition authorize_core (cfg : config) (s : state) (cl : client) (a : authz) :
                  s_exp_at := None; s_exp_rt := None; s_exp_dev := None |} in
     let r := {| r_id := rid; r_client := az_client a; r_cl := cl; r_rscopes := az_scopes a; r_gscopes := az_granted a;
                 r_raud := az_aud a; r_gaud := az_gaud a; r_sess := se; r_redirect := az_redirect a;
-                r_challenge := ""; r_method := ""; r_at := now s |} in
+                r_challenge := ""; r_method := ""; r_mode := ""; r_at := now s |} in
     let s3 := set_store s2 (create_code (st s2) k r) in
     (* pkce.Handler.HandleAuthorizeEndpointRequest (runs last) *)
     match pkce_validate cfg (az_challenge a) (az_method a) cl with
@@ -192,7 +193,7 @@ Definition authorize_core (cfg : config) (s : state) (cl : client) (a : authz) :
           else set_store s3 (create_pkce (st s3) k
                  {| r_id := rid; r_client := az_client a; r_cl := cl; r_rscopes := az_scopes a; r_gscopes := az_granted a;
                     r_raud := az_aud a; r_gaud := az_gaud a; r_sess := se; r_redirect := "";
-                    r_challenge := az_challenge a; r_method := az_method a; r_at := now s |}) in
+                    r_challenge := az_challenge a; r_method := az_method a; r_mode := ""; r_at := now s |}) in
         (log_add s4 [{| i_kind := KCode; i_key := k; i_rid := rid; i_endpoint_token := false |}],
          ok_obs [KCode] 0%Z [])
     end.
@@ -210,7 +211,7 @@ Definition store_implicit (cfg : config) (s : state) (cl : client) (a : authz) (
   let se := implicit_session cfg s cl a exp_code in
   let r := {| r_id := rid; r_client := az_client a; r_cl := cl; r_rscopes := az_scopes a; r_gscopes := az_granted a;
               r_raud := az_aud a; r_gaud := az_gaud a; r_sess := se; r_redirect := "";
-              r_challenge := ""; r_method := ""; r_at := now s |} in
+              r_challenge := ""; r_method := ""; r_mode := ""; r_at := now s |} in
   (set_store s1 (create_implicit (st s1) ka r), ka).
 
 (* the token reaches the caller (and the log of issued credentials) only when the whole request succeeds *)
@@ -242,7 +243,7 @@ Definition authorize_hybrid (cfg : config) (s : state) (cl : client) (a : authz)
     let se := {| s_subject := az_subject a; s_exp_code := exp_code; s_exp_at := None; s_exp_rt := None; s_exp_dev := None |} in
     let r := {| r_id := rid; r_client := az_client a; r_cl := cl; r_rscopes := az_scopes a; r_gscopes := az_granted a;
                 r_raud := az_aud a; r_gaud := az_gaud a; r_sess := se; r_redirect := az_redirect a;
-                r_challenge := ""; r_method := ""; r_at := now s |} in
+                r_challenge := ""; r_method := ""; r_mode := ""; r_at := now s |} in
     let s3 := set_store s2 (create_code (st s2) k r) in
     if negb (args_has (cl_grants cl) ["implicit"]) then fail s3 "invalid_grant"
     else
@@ -255,7 +256,7 @@ Definition authorize_hybrid (cfg : config) (s : state) (cl : client) (a : authz)
             else set_store s4 (create_pkce (st s4) k
                    {| r_id := rid; r_client := az_client a; r_cl := cl; r_rscopes := az_scopes a; r_gscopes := az_granted a;
                       r_raud := az_aud a; r_gaud := az_gaud a; r_sess := implicit_session cfg s cl a exp_code; r_redirect := "";
-                      r_challenge := az_challenge a; r_method := az_method a; r_at := now s |}) in
+                      r_challenge := az_challenge a; r_method := az_method a; r_mode := ""; r_at := now s |}) in
           (log_add s5 [{| i_kind := KCode; i_key := k; i_rid := rid; i_endpoint_token := false |}],
            ok_obs [KImplicit; KCode] ein [])
       end.
@@ -300,7 +301,7 @@ Definition push (cfg : config) (s : state) (auth : option nat) (body_client : op
             let r := {| r_id := rid; r_client := cid; r_cl := cl; r_rscopes := az_scopes a; r_gscopes := [];
                         r_raud := az_aud a; r_gaud := [];
                         r_sess := {| s_subject := ""; s_exp_code := None; s_exp_at := None; s_exp_rt := None; s_exp_dev := None |};
-                        r_redirect := az_redirect a; r_challenge := az_challenge a; r_method := az_method a; r_at := now s |} in
+                        r_redirect := az_redirect a; r_challenge := az_challenge a; r_method := az_method a; r_mode := az_mode a; r_at := now s |} in
             (log_add (set_store s2 (create_par (st s2) k r))
                [{| i_kind := KPar; i_key := k; i_rid := rid; i_endpoint_token := false |}],
              ok_obs [KPar] (secs (cf_par_life cfg)) [])
@@ -311,7 +312,16 @@ Definition push (cfg : config) (s : state) (auth : option nat) (body_client : op
    session is looked up and deleted, the client_id parameter must name the pushing client, and the
    authorization proceeds with the pushed parameters; query parameters only supply keys the pushed form
    does not contain ([a] carries the query's PKCE parameters and the resource owner's decision) *)
-Definition authorize_par (cfg : config) (s : state) (client_param : nat) (uri : pres) (a : authz) : state * obs :=
+(* "query" is the code flow's default response mode: it is what a request without response_mode ends up with, so only
+   a mode that differs from it is reported *)
+Definition reported_mode (m : string) : string := if String.eqb m "query" then "" else m.
+Definition with_mode (m0 : string) (res : state * obs) : state * obs :=
+  let m := reported_mode m0 in
+  if String.eqb (o_err (snd res)) "" && negb (String.eqb m "")
+  then (fst res, {| o_err := ""; o_minted := o_minted (snd res); o_expires_in := o_expires_in (snd res); o_scopes := [m] |})
+  else res.
+
+Definition authorize_par0 (cfg : config) (s : state) (client_param : nat) (uri : pres) (a : authz) : state * obs :=
   match key_of s uri with
   | None => fail s "invalid_request_uri"
   | Some k =>
@@ -323,12 +333,22 @@ Definition authorize_par (cfg : config) (s : state) (client_param : nat) (uri : 
       if before (r_at pr + cf_par_life cfg)%Z (now s) then fail s1 "invalid_request_uri"
       else if negb (Nat.eqb client_param (r_client pr)) then fail s1 "invalid_request"
       else
-        authorize_core cfg s1 (r_cl pr)
-          {| az_rtype := RCode; az_client := r_client pr; az_redirect := r_redirect pr; az_scopes := r_rscopes pr; az_granted := az_granted a;
-             az_aud := r_raud pr; az_gaud := az_gaud a; az_subject := az_subject a;
-             az_challenge := if String.eqb (r_challenge pr) "" then az_challenge a else r_challenge pr;
-             az_method := if String.eqb (r_method pr) "" then az_method a else r_method pr |}
+        (authorize_core cfg s1 (r_cl pr)
+             {| az_rtype := RCode; az_client := r_client pr; az_redirect := r_redirect pr; az_scopes := r_rscopes pr; az_granted := az_granted a;
+                az_aud := r_raud pr; az_gaud := az_gaud a; az_subject := az_subject a;
+                az_challenge := if String.eqb (r_challenge pr) "" then az_challenge a else r_challenge pr;
+                az_method := if String.eqb (r_method pr) "" then az_method a else r_method pr; az_mode := r_mode pr |})
   end end.
+
+(* ... and the response is written in the pushed response mode (reported in the scope field of the observation) *)
+Definition authorize_par (cfg : config) (s : state) (client_param : nat) (uri : pres) (a : authz) : state * obs :=
+  match key_of s uri with
+  | Some k => match par (st s) k with
+              | Some pr => with_mode (r_mode pr) (authorize_par0 cfg s client_param uri a)
+              | None => authorize_par0 cfg s client_param uri a
+              end
+  | None => authorize_par0 cfg s client_param uri a
+  end.
 
 (* ------------------------------------------------------------------ device authorization grant (RFC 8628) *)
 (* NewDeviceRequest + DeviceAuthHandler *)
@@ -352,7 +372,7 @@ Definition device_authorize (cfg : config) (s : state) (auth : option nat) (body
         let r := {| r_id := rid; r_client := c; r_cl := cl; r_rscopes := scopes; r_gscopes := [];
                     r_raud := aud; r_gaud := [];
                     r_sess := {| s_subject := ""; s_exp_code := None; s_exp_at := None; s_exp_rt := None; s_exp_dev := Some exp |};
-                    r_redirect := ""; r_challenge := ""; r_method := ""; r_at := now s |} in
+                    r_redirect := ""; r_challenge := ""; r_method := ""; r_mode := ""; r_at := now s |} in
         (log_add (set_store s3 (put_device (st s3) kd (0, r)))
            [{| i_kind := KDevice; i_key := kd; i_rid := rid; i_endpoint_token := false |};
             {| i_kind := KUser; i_key := ku; i_rid := rid; i_endpoint_token := false |}],
@@ -378,7 +398,7 @@ Definition decide (cfg : config) (s : state) (dev : pres) (accept : bool) (grant
                      r_raud := r_raud r; r_gaud := gaud;
                      r_sess := {| s_subject := subject; s_exp_code := s_exp_code se; s_exp_at := s_exp_at se;
                                   s_exp_rt := s_exp_rt se; s_exp_dev := if fresh_session then None else s_exp_dev se |};
-                     r_redirect := ""; r_challenge := ""; r_method := ""; r_at := r_at r |} in
+                     r_redirect := ""; r_challenge := ""; r_method := ""; r_mode := ""; r_at := r_at r |} in
         (set_store s (put_device (st s) k ((if accept then 1 else 2), r')), ok_obs [] 0%Z [])
   end end.
 
@@ -407,7 +427,7 @@ Definition device_poll (cfg : config) (s : state) (auth : option nat) (dev : pre
             let se := set_token_expiries cfg (now s) (r_sess r) in
             let stored := {| r_id := r_id r; r_client := c; r_cl := cl; r_rscopes := r_rscopes r; r_gscopes := r_gscopes r;
                              r_raud := r_raud r; r_gaud := r_gaud r; r_sess := se; r_redirect := "";
-                             r_challenge := ""; r_method := ""; r_at := now s |} in
+                             r_challenge := ""; r_method := ""; r_mode := ""; r_at := now s |} in
             (* InvalidateDeviceCodeSession (the reference store deletes), then the token sessions *)
             let s1 := set_store s (delete_device (st s) k) in
             let (s2, minted) := grant_tokens s1 stored (can_refresh cfg (r_gscopes r) cl) in
@@ -452,7 +472,7 @@ Definition redeem (cfg : config) (s : state) (auth : option nat) (code : pres) (
                 else
                   let stored := {| r_id := r_id r; r_client := c; r_cl := cl; r_rscopes := r_rscopes r; r_gscopes := r_gscopes r;
                                    r_raud := r_raud r; r_gaud := r_gaud r; r_sess := se; r_redirect := "";
-                                   r_challenge := ""; r_method := ""; r_at := now s |} in
+                                   r_challenge := ""; r_method := ""; r_mode := ""; r_at := now s |} in
                   (* InvalidateAuthorizeCodeSession, then the token sessions (minting touches no table) *)
                   let s2 := set_store s1 (fst (invalidate_code (st s1) k)) in
                   let (s3, minted) := grant_tokens s2 stored (can_refresh cfg (r_gscopes r) (r_cl r)) in
@@ -492,7 +512,7 @@ Definition refresh_flow (cfg : config) (s : state) (auth : option nat) (tok : pr
             let se := set_token_expiries (eff_cfg cfg cl LRefresh) (now s) (r_sess r) in
             let stored := {| r_id := r_id r; r_client := c; r_cl := cl; r_rscopes := r_rscopes r; r_gscopes := r_gscopes r;
                              r_raud := r_raud r; r_gaud := r_gaud r; r_sess := se; r_redirect := "";
-                             r_challenge := ""; r_method := ""; r_at := now s |} in
+                             r_challenge := ""; r_method := ""; r_mode := ""; r_at := now s |} in
             (* PopulateTokenEndpointResponse: RotateRefreshToken, then the new sessions *)
             match rotate_refresh (st s) (r_id r) with
             | (st1, Some _) => fail (set_store s st1) "invalid_request"
@@ -595,7 +615,7 @@ Definition password_flow (cfg : config) (s : state) (auth : option nat) (creds_o
         let se := fresh_session (eff_cfg cfg cl LPassword) s "uuid" true true in
         let mk := fun rid => {| r_id := rid; r_client := c; r_cl := cl; r_rscopes := scopes; r_gscopes := granted;
                          r_raud := aud; r_gaud := gaud; r_sess := se; r_redirect := "";
-                         r_challenge := ""; r_method := ""; r_at := now s |} in
+                         r_challenge := ""; r_method := ""; r_mode := ""; r_at := now s |} in
         let w := match cf_refresh_scopes cfg with [] => true | sc => args_has_one_of granted sc end in
         let (s2, minted) := fresh_grant s mk w in
         (s2, ok_obs minted (expires_in se cfg (now s)) granted)
@@ -618,7 +638,7 @@ Definition client_credentials_flow (cfg : config) (s : state) (auth : option nat
         let se := fresh_session (eff_cfg cfg cl LClientCreds) s "" false false in
         let mk := fun rid => {| r_id := rid; r_client := c; r_cl := cl; r_rscopes := scopes; r_gscopes := granted;
                          r_raud := aud; r_gaud := gaud; r_sess := se; r_redirect := "";
-                         r_challenge := ""; r_method := ""; r_at := now s |} in
+                         r_challenge := ""; r_method := ""; r_mode := ""; r_at := now s |} in
         let (s2, minted) := fresh_grant s mk false in
         (s2, ok_obs minted (expires_in se cfg (now s)) granted)
   end end.
